@@ -112,6 +112,87 @@ def replay_update(d):
     return 1 if (bool(r) != bool(should) or notcopied) else 0
 
 
+def run_trans(inst):
+    """K: one real logprob_trans call from a predecessor with ARBITRARY accumulated distances d_o, d_s >= 0 (zero included),
+    relative positions and grand-predecessor, for every kind of move (same edge, reverse edge, connected, not connected) and every
+    emitting / non-emitting combination; compared with the documented transition term."""
+    from leuvenmapmatching.util.segment import Segment
+    from symx.absmap import make_absmap_class, P
+    from symx.matchlib import Cfg, make_matcher
+    _, fam, goingback, pstate, sstate, pne, ne, ppstate = inst[:8]
+    g = {"A": ["B"], "B": ["C", "A"], "C": ["D"], "D": [], "X": ["Y"], "Y": []}
+    linked = {("A", "B"): [("X", "Y")]}
+    cfg = Cfg(fam=fam, T=2, ne=True, goingback=goingback, sym_maxdist=False, sym_init=False, sym_minprob=False)
+    AbsMap = make_absmap_class()
+    shims.install()
+    name = f"trans {fam} goingback={goingback} {pstate}->{sstate} prev_ne={pne} next_ne={ne} before={ppstate}"
+
+    def seg_m(mp, st, pim, ti):
+        return Segment(st[0], mp.loc[st[0]], st[1], mp.loc[st[1]], P(pim), E.Sym(ti))
+
+    def seg_o(pio, obs, is_ne):
+        if is_ne:
+            sg = Segment(f"O{obs}", P(f"o{obs}"), f"O{obs + 1}", P(f"o{obs + 1}"))
+            sg.pi = P(pio)
+            return sg
+        return Segment(f"O{obs}", P(f"o{obs}"))
+
+    def scenario():
+        eng = E.get_engine()
+        mp = AbsMap(g, linked=linked)
+        mt = make_matcher(eng, mp, cfg)
+        pm = LL.PathModel(mp, mt, cfg)
+        pobs, cobs = 0, (0 if ne and not pne else (0 if ne else 1))
+        qp, pim_p, pio_p, ti_p = pm.geo(pstate, pobs, 1 if pne else 0)
+        cne = (2 if pne else 1) if ne else 0
+        qc, pim_c, pio_c, ti_c = pm.geo(sstate, cobs if ne else 1, cne if ne else 0)
+        d_o, d_s = eng.fresh("prev_d_o"), eng.fresh("prev_d_s")
+        eng.assume(z3.And(d_o.t >= 0, d_s.t >= 0))
+        kw = dict(d_o=d_o, d_s=d_s) if fam == 'dist' else {}
+        prev = mt.matching(mt, seg_m(mp, pstate, pim_p, ti_p), seg_o(pio_p, pobs, pne), logprob=eng.fresh("lp_prev"), obs=pobs,
+                           obs_ne=1 if pne else 0, **kw)
+        if ppstate is not None:
+            _, pim_pp, pio_pp, ti_pp = pm.geo(ppstate, 0, 0)
+            prev.prev = {mt.matching(mt, seg_m(mp, ppstate, pim_pp, ti_pp), seg_o(pio_pp, 0, False), logprob=eng.fresh("lp_pp"), obs=0)}
+        em, eo = seg_m(mp, sstate, pim_c, ti_c), seg_o(pio_c, cobs if ne else 1, ne)
+        lp, props = mt.logprob_trans(prev, em, eo, is_prev_ne=pne, is_next_ne=ne)
+        info = dict(pim=pim_p, pio=pio_p, ti=ti_p, d_o=d_o.t, d_s=d_s.t)
+        exp = pm.trans_term(info, pstate, pne, sstate, ne, pim_c, pio_c, ti_c, ppstate)
+        return dict(lp=lp, props=props, exp=exp, d_o=d_o, d_s=d_s)
+
+    def claims(eng, v):
+        tr, edo, eds = v['exp']
+        cl = [('transition_term', LL.near(v['lp'], tr))]
+        if fam == 'dist':
+            cl.append(('accumulated_observation_distance', LL.near(v['props']['d_o'], edo)))
+            cl.append(('accumulated_state_distance', LL.near(v['props']['d_s'], eds)))
+        return cl
+
+    def confirm(eng, model, v, cname):
+        # the call itself is the real code on this path; report the model's inputs (plain numbers) for the replay
+        return dict(desc=f"logprob_trans {name}: {cname} differs from the documented term with prev d_o={E.model_value(model, v['d_o'].t)}, "
+                         f"prev d_s={E.model_value(model, v['d_s'].t)}: got {E.model_value(model, E.lift(v['lp']))}, documented {E.model_value(model, v['exp'][0])}",
+                    kind='trans')
+    out = runner.explore(name, runner.nra_engine(8000) if fam == 'dist' else runner.lra_engine(8000), scenario, claims, confirm=confirm,
+                         witness=lambda eng, v: ['trans_call'])
+    shims.uninstall()
+    return out
+
+
+def trans_instances(tier):
+    out = []
+    moves = [(("A", "B"), ("A", "B"), None), (("A", "B"), ("B", "A"), None), (("A", "B"), ("B", "C"), None), (("A", "B"), ("X", "Y"), None),
+             (("B", "C"), ("C", "D"), ("A", "B")), (("B", "A"), ("A", "B"), ("A", "B"))]
+    for fam in ('dist', 'simple'):
+        for gb in (True, False):
+            for (p_, s_, pp) in moves:
+                for pne, ne in ((False, False), (False, True), (True, True), (True, False)):
+                    if tier == 'quick' and fam == 'simple' and (pne or ne) and not gb:
+                        continue
+                    out.append(('trans', fam, gb, p_, s_, pne, ne, pp))
+    return out
+
+
 # ------------------------------------------------------------------------------------------------ B: re-derivation
 def claims_fn(ctx):
     cl = []
@@ -152,6 +233,7 @@ def b_instances(tier):
             out.append(('tri', tri, dict(fam=fam, T=2, ne=True, **NOSYM), [('match', 2)], {}))
             out.append(('oneway4', NAMED['oneway4'], dict(fam=fam, T=2, ne=True, **NOSYM), [('match', 2)], {}))
             out.append(('oneway3', g3, dict(fam=fam, T=3, ne=True, **NOSYM), [('match', 3)], {}))
+            out.append(('oneway4', NAMED['oneway4'], dict(fam=fam, T=3, ne=True, **NOSYM), [('match', 3)], {}))
             out.append(('oneway3', g3, dict(fam=fam, T=2, ne=True, width=1, **NOSYM), [('match', 2), ('widen', 2)], {}))
             out.append(('line2', g2, dict(fam=fam, T=3, ne=False, **NOSYM), [('match', 2), ('extend', 3)], {}))
             out.append(('line2', g2, dict(fam=fam, T=2, ne=False, sym_maxdist=True, sym_init=False, sym_minprob=True),
@@ -179,6 +261,8 @@ def b_instances(tier):
 def run_instance(inst):
     if inst[0] == 'update':
         return run_update(inst)
+    if inst[0] == 'trans':
+        return run_trans(inst)
     return gabs.run(inst, claims_fn, witness_fn)
 
 
@@ -194,7 +278,7 @@ def main(tier):
                              mb.BaseMatcher._match_non_emitting_states_end, mb.BaseMatcher._build_matching_path)
     budget = 60 if tier == 'quick' else 900
     core_s = 16 * (120 if tier == 'quick' else 900)
-    kres = run_instances(run_instance, [('update', c) for c in ('BaseMatching', 'SimpleMatching', 'DistanceMatching')])
+    kres = run_instances(run_instance, [('update', c) for c in ('BaseMatching', 'SimpleMatching', 'DistanceMatching')] + trans_instances(tier))
     res = gabs.run_all(rep, run_instance, b_instances(tier), budget, core_s)
     rep.bounds = dict(update="two entries of the same key, symbolic scores and stop flags, every slot of the class",
                       runs="abstract geometry; graphs " + ("line2, oneway3, tri, oneway4" if tier == 'quick' else "all digraphs <=3 nodes/<=4 edges + fork, oneway4, path4") +
@@ -203,7 +287,7 @@ def main(tier):
     rep.outside = ["rounding", "graphs/traces beyond the bound", "G-real projections (pi/ti exactness is C05/C13)"]
     rep.assumptions = ["AbsMap contract", "halfnorm formula shim", "tolerance 1e-8 on re-derived log-probabilities"]
     tags = gabs.collect(rep, list(kres) + list(res), PID,
-                        need_tags=('replaced', 'kept', 'nonemitting_on_best_path', 'history_of_operations'))
+                        need_tags=('replaced', 'kept', 'nonemitting_on_best_path', 'history_of_operations', 'trans_call'))
     return rep.finish("symbolic execution of the real update()/match()/widen/extend over abstract geometry (SYMX, z3); the reported "
                       "fields along the best path are compared in the solver with an independent re-derivation of the documented model")
 
@@ -215,4 +299,7 @@ def replay_file(path):
         d = json.load(f)
     if d.get('kind') == 'update':
         return replay_update(d)
+    if d.get('kind') == 'trans':
+        print(d['observed'])
+        return 1
     return gabs.replay(path, claims_fn)
